@@ -51,8 +51,18 @@ type State struct {
 	ghost  map[string]*Term
 	defers []*deferRec // of the current (innermost non-inlined-complete) frame stack; managed per frame
 	writes map[string]bool
+	wlog   *writeLog // dry runs only: which single locations were written (precise havoc of loop-invariant cells)
 	sealed bool // reading a heap array that is not preset is an error (spec function templates)
 }
+
+// writeLog refines the write set of a dry run: refs[k] lists the references written through single-location
+// stores into heap array k; any[k] is set when k was written in any other way (callee frames, append, copy ...).
+type writeLog struct {
+	refs map[string][]*Term
+	any  map[string]bool
+}
+
+func newWriteLog() *writeLog { return &writeLog{refs: map[string][]*Term{}, any: map[string]bool{}} }
 
 func newState() *State {
 	return &State{pc: True, heap: map[string]*Term{}, sorts: heapSorts, alloc: Const("alloc!0", "Int"), ghost: map[string]*Term{}, writes: map[string]bool{}}
@@ -62,7 +72,7 @@ func newState() *State {
 var heapSorts = map[string]string{}
 
 func (s *State) clone() *State {
-	n := &State{pc: s.pc, heap: make(map[string]*Term, len(s.heap)), sorts: s.sorts, alloc: s.alloc, ghost: make(map[string]*Term, len(s.ghost)), writes: s.writes}
+	n := &State{pc: s.pc, heap: make(map[string]*Term, len(s.heap)), sorts: s.sorts, alloc: s.alloc, ghost: make(map[string]*Term, len(s.ghost)), writes: s.writes, wlog: s.wlog}
 	for k, v := range s.heap {
 		n.heap[k] = v
 	}
@@ -120,6 +130,19 @@ func (s *State) setH(key string, t *Term) {
 	heapSorts[key] = t.Sort
 	s.heap[key] = t
 	s.writes[key] = true
+	if s.wlog != nil {
+		s.wlog.any[key] = true
+	}
+}
+
+// setCell: a store into exactly one location (ref) of heap array key.
+func (s *State) setCell(key string, t, ref *Term) {
+	heapSorts[key] = t.Sort
+	s.heap[key] = t
+	s.writes[key] = true
+	if s.wlog != nil {
+		s.wlog.refs[key] = append(s.wlog.refs[key], ref)
+	}
 }
 
 func (s *State) G(name string) *Term {
@@ -145,7 +168,7 @@ func mergeStates(sts []*State) *State {
 	if len(sts) == 1 {
 		return sts[0]
 	}
-	out := &State{heap: map[string]*Term{}, sorts: sts[0].sorts, ghost: map[string]*Term{}, writes: sts[0].writes}
+	out := &State{heap: map[string]*Term{}, sorts: sts[0].sorts, ghost: map[string]*Term{}, writes: sts[0].writes, wlog: sts[0].wlog}
 	var pcs []*Term
 	for _, s := range sts {
 		pcs = append(pcs, s.pc)
@@ -228,7 +251,7 @@ func (x *Exec) writeLV(st *State, lv *LValue, nv *Term) {
 		return
 	}
 	cell := Select(h, lv.Ref)
-	st.setH(lv.Key, Store(h, lv.Ref, updPath(cell, lv.Path, nv)))
+	st.setCell(lv.Key, Store(h, lv.Ref, updPath(cell, lv.Path, nv)), lv.Ref)
 }
 
 // fieldLV returns the location of field i of the struct designated by ptr (a Ref
